@@ -166,7 +166,9 @@ let do_frontend (f : Stdlib.String.t array) : Stdlib.String.t =
   let after = match counter_after regex j pe pp pc (fuel_for ts) ts with
     | Some c -> string_of_int (int_of_n c) | None -> "-" in
   let out = match res with
-    | FEOk (v, p, _) -> Printf.sprintf "ok\t%s\t%s" (uexpr_s v) (pat_s j p)
+    | FEOk (v, p, _) ->
+        (* the whole expansion, printed from the tree the MODEL's parser produced *)
+        Printf.sprintf "ok\t%s\t%s\t%s" (uexpr_s v) (pat_s j p) (toks_to_string (expand_top j v.u_toks p))
     | FEErr sp -> "err\t" ^ span_start_s sp
     | FEPanic site -> "panic\t" ^ hex (ocaml_string site)
     | FEFuel -> "fuel" in
